@@ -949,8 +949,13 @@ coap_session_disconnected_lkd(coap_session_t *session, coap_nack_reason_t reason
 
   while (q) {
     if (q->session == session) {
-      /* Take the first one */
-      coap_handle_nack(session, q->pdu, reason, q->id);
+      /*
+       * Take the first one.  It stays in the sendqueue: unless this is only
+       * an ICMP notice, coap_cancel_session_messages() below reports every
+       * Confirmable of the session (this one included) when it removes it.
+       */
+      if (reason == COAP_NACK_ICMP_ISSUE || q->pdu->type != COAP_MESSAGE_CON)
+        coap_handle_nack(session, q->pdu, reason, q->id);
       sent_nack = 1;
       break;
     }
